@@ -7,6 +7,11 @@ NOTE = ("Trusted: Coq 8.16.1 kernel and vm_compute (no native_compute); no axiom
         "context'); the go2v translator; the Go harness/oracle; Go toolchain and third-party libraries. See DESIGN.md section 7.")
 SOURCE_COMMITS = ["05f9ccb verif hooks: export template rendering behind the 'verif' build tag"]
 CLAIMED = {
+ "C10": dict(ref="5 C10", technique="Rocq/Coq proof (per-endpoint fail-closed corollaries of the endpoint models) + exhaustive fault enumeration on the implementation",
+   text="C10_callback/_sso/_attrquery/_logout/_metadata/_probes: for every endpoint model, a reply with Success / user data / signed metadata implies that every storage and key operation the request "
+        "needed succeeded, and a failed persist leaves nothing persisted (all inputs). The harness records the operations of a fault-free request per endpoint and injects every (operation, occurrence, kind) "
+        "singly (thorough: pairs) - a finite, completely enumerated space - checking the fail-closed oracle; metadata/certificate/readiness replies are also compared with the Coq model.",
+   category="proof"),
  "C12": dict(ref="5 C12", technique="Rocq/Coq proof by symbolic execution of the chain go2v extracts from attribute_query.go + in-Coq correspondence",
    text="C12_answered: for all queries, metadata, user records and key states, an answer with user data implies registered issuer, verified signature value, certificate match when required, "
         "Destination absent or the advertised attribute service, successful user lookup and signing, and the answer is exactly (query ID, requester as audience, user's NameID, filtered attributes); "
